@@ -19,7 +19,7 @@ func implUP(a, sec, ra []byte) *Toks {
 
 func init() {
 	props["C04"] = func(c *Ctx) {
-		c.Res.Rule = "NewUserPassword: every plaintext length 0..140 x random contents (incl. embedded NULs) x secret lengths 0..64, 64..66 and up to 465 x authenticator lengths 0..32; UserPassword: ciphertexts of every length 0..300 (random) and the decryption of every produced ciphertext (round trip), plaintexts around 256, 1024, 4096, 8192 and 65536 bytes (refused), incl. via rfc2865.UserPassword_Set/Get; model and the from-the-RFC oracle (Gallina MD5) compared byte for byte. non-trivial = accepted input with more than one 16-byte block"
+		c.Res.Rule = "NewUserPassword: every plaintext length 0..140 x random contents (incl. embedded NULs and trailing runs of NULs across block boundaries) x secret lengths 0..64, 64..66 and up to 465 x authenticator lengths 0..32; UserPassword: ciphertexts of every length 0..300 (random) and the decryption of every produced ciphertext (round trip), plaintexts around 256, 1024, 4096, 8192 and 65536 bytes (refused), incl. via rfc2865.UserPassword_Set/Get; model and the from-the-RFC oracle (Gallina MD5) compared byte for byte. non-trivial = accepted input with more than one 16-byte block"
 		r := c.Rng.Fork()
 		reps := c.N(4, 60)
 		for rep := 0; rep < reps; rep++ {
@@ -33,6 +33,12 @@ func init() {
 						if pt[i] == 0 {
 							pt[i] = 1
 						}
+					}
+				}
+				if n > 1 && r.Intn(5) == 0 {
+					// a run of NULs at the end (as an already padded password has), possibly across a block boundary
+					for i := n - 1 - r.Intn(min(n-1, 20)); i < n; i++ {
+						pt[i] = 0
 					}
 				}
 				sl := 1 + r.Intn(20)
@@ -120,4 +126,11 @@ func init() {
 		c.Flush()
 		c.RequireTags("nup-ok-1blk", "nup-ok-2blk", "nup-ok-8blk", "nup-refused", "up-of-nup", "up-ok", "up-refused")
 	}
+}
+
+func min(a, b int) int {
+	if a < b {
+		return a
+	}
+	return b
 }
